@@ -6,4 +6,4 @@ print('|---|---|---|---|---|---|---|---|---|')
 for f in sorted(glob.glob('/verif/evidence/C*.json')):
     e=json.load(open(f)); c=e.get('coverage',{})
     ex=c.get('executions_complete') or c.get('evaluations') or ''
-    print('| %s | %s | %s | %s | %s | %s | %s | %s | %ss |'%(e.get('property_id',os.path.basename(f)[:3]),e.get('tier',''),e.get('states_explored',c.get('states','')),e.get('transitions_explored',c.get('transitions','')),c.get('evaluations',ex),c.get('distinct_nontrivial',''),c.get('exhaustive',''),e.get('violations'),e.get('wall_s','')))
+    print('| %s | %s | %s | %s | %s | %s | %s | %s | %ss |'%(e.get('property_id',os.path.basename(f)[:3]),e.get('tier',''),e.get('states_explored',c.get('states','')),e.get('transitions_explored',c.get('transitions','')),c.get('evaluations',ex),c.get('distinct_nontrivial',''),c.get('exhaustive',''),e.get('violations'),round(e.get('wall_s',0),1)))
